@@ -19,9 +19,9 @@ from engines import recplay as R
 PROP = 'C04'
 
 IN_FAULTS = ['key_unbuildable', 'handler_raises', 'copy_fails', 'unserializable_value', 'discard_in_body',
-             'force_in_body', 'discard_before', 'force_before', 'fallback_raises', 'resolver_raises', 'disable_in_body', 'disable_before']
+             'force_in_body', 'discard_before', 'force_before', 'fallback_raises', 'resolver_raises', 'disable_in_body', 'disable_before', 'discard_in_body_handler_raises']
 OUT_FAULTS = ['handler_raises', 'discard_in_body', 'force_in_body', 'discard_before', 'force_before',
-              'unserializable_value', 'unserializable_argument', 'disable_in_body', 'disable_in_handler', 'disable_before']
+              'unserializable_value', 'unserializable_argument', 'disable_in_body', 'disable_in_handler', 'disable_before', 'discard_in_body_handler_raises']
 
 META = {
     'engine': 'recplay',
@@ -84,7 +84,7 @@ def apply_fault(spec, io_steps, pos, kind_raw, run):
         lst, n = locate(spec.body, st)
         lst.insert(n, {'discard_before': ['discard'], 'force_before': ['force'], 'disable_before': ['disable']}[kind])
         return kind
-    if kind in ('handler_raises', 'disable_in_handler'):
+    if kind in ('handler_raises', 'disable_in_handler', 'discard_in_body_handler_raises'):
         (spec.inputs if st[0] == 'in' else spec.outputs)[st[1]].handler = True
     if kind == 'fallback_raises':
         ispec = spec.inputs[st[1]]
